@@ -91,7 +91,7 @@ PROPS = {
 def _impl_type(u) -> str | None:
     if not u.impl:
         return None
-    m = re.search(r"impl(?:<[^>]*>)?\s+(?:[\w:]+(?:<[^>]*>)?\s+for\s+)?([A-Za-z_]\w*)", u.impl)
+    m = re.search(r"impl(?:<[^>]*>)?\s+(?:[\w:]+(?:<[^>]*>)?\s+for\s+)?([A-Za-z_]\w*)", u.impl) or re.search(r"trait\s+([A-Za-z_]\w*)", u.impl)
     return m.group(1) if m else None
 
 
